@@ -478,6 +478,10 @@ def Config.setNum {ν : Type} (c : Config ν) (k : Str) (x : ν) : Config ν :=
   else if k = "ulymap".toList then { c with ulymap := some x }
   else c
 
+/-- `pname.startswith("n") and not pname.startswith("nodata")`, or `pname.startswith("parentgrid_n")` -/
+def isIntKey (k : Str) : Bool :=
+  (startsWith k "n".toList && !startsWith k "nodata".toList) || startsWith k "parentgrid_n".toList
+
 /-- one iteration of the `for line in stream_header.readlines()` loop; a `ValueError` in `int()` /
 `float()` is a warning and the field is skipped -/
 def parseLine {ν : Type} (io : NumIO ν) (c : Config ν) (line : Str) : Except Err (Config ν) :=
@@ -490,8 +494,7 @@ def parseLine {ν : Type} (io : NumIO ν) (c : Config ν) (line : Str) : Except 
     | [] => .error .malformedLine
     | t1 :: _ =>
       let tok := strip t1
-      if (startsWith pname "n".toList && !startsWith pname "nodata".toList)
-          || startsWith pname "parentgrid_n".toList then
+      if isIntKey pname then
         match parseInt? tok with
         | some n => .ok (c.setInt pname n)
         | none => .ok c
